@@ -271,7 +271,7 @@ fn one_case(seed: u64, i: u64) -> CaseOut {
             for (a, w) in &f.mem_diff {
                 mem[*a as usize] = *w;
             }
-            if !cfg!(miri) && crate::util::hash_words(&mem[..]) != plain.fs.mem_hash {
+            if crate::util::hash_words(&mem[..]) != plain.fs.mem_hash {
                 diff = Some(("memory".into(), "final memory differs from the plain run".into()));
             }
         }
